@@ -12,7 +12,7 @@ let rec cond_of s = match String.index_opt s '/' with
       | 'H' -> CHostEq (bytes_of_hex (String.sub s 1 (String.length s - 1)))
       | _ -> CIpNot10)
 let () = iter_lines (fun line ->
-  let cf = ref { flags = N0; lc = false; deny = []; excl = []; auth_prefix = []; blocks = [] } in
+  let cf = ref { flags = N0; lc = false; allow = []; deny = []; excl = []; auth_prefix = []; blocks = [] } in
   let fs = ref { files = []; dirs = [] } in
   let exact = ref [] and cidrs = ref [] in
   let out = Buffer.create 64 in
@@ -25,6 +25,7 @@ let () = iter_lines (fun line ->
   List.iter (fun tok ->
     match String.split_on_char ':' tok with
     | ["cfg"; fl; lc; d; x; a] -> cf := { !cf with flags = n_of_int (int_of_string fl); lc = (lc = "1"); deny = hexlist d; excl = hexlist x; auth_prefix = hexlist a }
+    | ["cfg"; fl; lc; d; x; a; al] -> cf := { !cf with flags = n_of_int (int_of_string fl); lc = (lc = "1"); deny = hexlist d; excl = hexlist x; auth_prefix = hexlist a; allow = hexlist al }
     | ["blk"; c] -> cf := { !cf with blocks = !cf.blocks @ [cond_of c] }
     | ["fs"; f; d] -> fs := { files = hexlist f; dirs = hexlist d }
     | ["tr"; e; c] ->
